@@ -28,7 +28,11 @@ func genEvalFlavor(stream, flavor string, nQuick, nThorough int) func(r *h.Rand,
 		}
 		var cs []h.Case
 		for i := 0; i < n; i++ {
-			cs = append(cs, evalCase(stream, genProgram(r, flavor)))
+			pr := genProgram(r, flavor)
+			cs = append(cs, evalCase(stream, pr))
+			if i%4 == 0 {
+				cs = append(cs, e2eCase(pr)) // the same program through the whole model pipeline, from source
+			}
 		}
 		for i := 0; i < n/2; i++ {
 			cs = append(cs, oracleCase("oracle", r, flavor))
